@@ -225,7 +225,7 @@ op("s_rename", "s", lambda x: x.rename("renamed"), tier=2)
 op("clear_div", "any", lambda x: x.clear_divisions(), pd=ident, tier=2)
 op("explode", "s", lambda x: x.explode(), tier=3, tags=("dup",))
 op("sample", "any", lambda x: x.sample(frac=0.5, random_state=1), pd=None, tags=("daskonly",), tier=3)
-op("mem_usage", "df", lambda x: x.memory_usage_per_partition(), pd=None, tags=("daskonly", "psens"), tier=3)
+op("mem_usage", "df", lambda x: _num(x).memory_usage_per_partition(), pd=None, tags=("daskonly", "psens"), tier=3)  # numeric columns: byte counts of object / categorical values differ between processes
 op("enforce_div", "any", lambda x: x.enforce_runtime_divisions(), pd=ident, tier=3)
 op("isin_c", "df", lambda x: x[x["c"].isin(["x", "z"])], tier=2)
 op("str_upper", "df", lambda x: x.assign(c=x["c"].str.upper()), tier=3)
